@@ -1,4 +1,5 @@
 import NomtModel.Store.WalkerSim
+import NomtModel.Store.WalkerAcct
 import NomtModel.Store.WalkerModel
 import NomtModel.Store.WalkerTreeRun3
 import NomtModel.Core.TriePosReach
@@ -26,6 +27,54 @@ def GUARD : String := "handle_elision_threshold: try_into().unwrap()"
 def CountersOK (sp : StackPage Node) : Prop :=
   sp.childrenLeaves.isSome = true → sp.prevChildrenLeaves.isSome = true
 
+/-- the accounting of the counters of the pages on the stack against the pages left so far -/
+def AcctInv (ps : PageSet Node) (w : Walker Node) (a : TW Node) : Prop :=
+  ∀ sp ∈ w.stack, Acct ps (a.log.map (·.1)) sp
+
+theorem AcctInv.cast {ps : PageSet Node} {w w' : Walker Node} {a a' : TW Node} (h : AcctInv ps w a)
+    (e1 : w'.stack = w.stack) (e3 : a'.log = a.log) : AcctInv ps w' a' := by
+  unfold AcctInv
+  rw [e1, e3]; exact h
+
+/-- **every slot written is named**: a slot the tree walker has written (`a.wl`) is named by the diff of its page — on the
+stack, or handed out — unless its page was left without being handed out (an elided page that never had a bucket); and no
+page is handed out twice -/
+def NamedInv (w : Walker Node) (a : TW Node) : Prop :=
+  (w.outputPages.map PageOut.pageId).Nodup ∧
+  ∀ q ∈ a.wl, q ≠ [] →
+    (∃ sp ∈ w.stack, sp.pageId = specPage q ∧ sp.diff.changed (specIndex q) = true) ∨
+    (∃ o ∈ w.outputPages, o.pageId = specPage q ∧ o.diff.changed (specIndex q) = true) ∨
+    (specPage q ∈ a.log.map (·.1) ∧ ∀ o ∈ w.outputPages, o.pageId ≠ specPage q)
+
+theorem NamedInv.cast {w w' : Walker Node} {a a' : TW Node} (h : NamedInv w a)
+    (e1 : w'.stack = w.stack) (e2 : w'.outputPages = w.outputPages) (e3 : a'.wl = a.wl) (e4 : a'.log = a.log) :
+    NamedInv w' a' := by
+  unfold NamedInv
+  rw [e1, e2, e3, e4]; exact h
+
+/-- more pages on the stack -/
+theorem NamedInv.push {w w' : Walker Node} {a a' : TW Node} (h : NamedInv w a)
+    (e1 : ∀ sp ∈ w.stack, sp ∈ w'.stack) (e2 : w'.outputPages = w.outputPages) (e3 : a'.wl = a.wl) (e4 : a'.log = a.log) :
+    NamedInv w' a' := by
+  unfold NamedInv
+  rw [e2, e3, e4]
+  refine ⟨h.1, ?_⟩
+  intro q hq hne
+  rcases h.2 q hq hne with ⟨sp, hsp, h1, h2⟩ | h'
+  · exact Or.inl ⟨sp, e1 sp hsp, h1, h2⟩
+  · exact Or.inr h'
+
+/-- writing the root node (no page) -/
+theorem NamedInv.write_root {w : Walker Node} {a : TW Node} (h : NamedInv w a) (hp : a.pos = []) (n : Node) :
+    NamedInv w (a.setNode n) := by
+  refine ⟨h.1, ?_⟩
+  intro q hq hne
+  have hq' : q ∈ a.wl ++ [a.pos] := hq
+  rcases List.mem_append.mp hq' with h1 | h1
+  · exact h.2 q h1 hne
+  · rw [List.mem_singleton, hp] at h1
+    exact absurd h1 hne
+
 structure Sim (ps : PageSet Node) (w : Walker Node) (a : TW Node) : Prop where
   wf : w.position.WF
   pos : w.position.path = a.pos
@@ -40,6 +89,8 @@ structure Sim (ps : PageSet Node) (w : Walker Node) (a : TW Node) : Prop where
   outs : ∀ o ∈ w.outputPages, OutMatches H ps o a.log
   nofix : w.preFix = false
   diffs : ∀ sp ∈ w.stack, DiffOK H ps sp
+  acct : AcctInv ps w a
+  named : NamedInv w a
 
 /-- the output pages of a walker that is not a reconstructor are `UpdatedPage`s (the form the update-mode theorems use) -/
 theorem outMatches_updated {ps : PageSet Node} {w : Walker Node} {a : TW Node} (h : Sim H ps w a)
@@ -65,9 +116,13 @@ theorem sim_update_top {w : Walker Node} {a : TW Node} (h : Sim H ps w a) (top :
     (hid : top'.pageId = top.pageId) (hc : CountersOK top') (hdf : DiffOK H ps top')
     (hctr : top'.prevChildrenLeaves = top.prevChildrenLeaves ∧ top'.pageLeaves = top.pageLeaves ∧
       top'.childrenLeaves = top.childrenLeaves)
-    (hm : PageMatches H top' st') (hrest : ∀ sp ∈ rest, PageMatches H sp st') (hroot : st' [] = a.store []) :
-    Sim H ps { w with stack := top' :: rest } { a with store := st' } := by
-  have hrecon : ReconInv H ({ w with stack := top' :: rest } : Walker Node) ({ a with store := st' } : TW Node) := by
+    (hm : PageMatches H top' st') (hrest : ∀ sp ∈ rest, PageMatches H sp st') (hroot : st' [] = a.store [])
+    (wl' : List Path)
+    (hdm : ∀ i, i < 126 → top.diff.changed i = true → top'.diff.changed i = true)
+    (hwl : ∀ q ∈ wl', q ≠ [] → q ∈ a.wl ∨ (specPage q = top'.pageId ∧ top'.diff.changed (specIndex q) = true)) :
+    Sim H ps { w with stack := top' :: rest } { a with store := st', wl := wl' } := by
+  have hrecon : ReconInv H ({ w with stack := top' :: rest } : Walker Node)
+      ({ a with store := st', wl := wl' } : TW Node) := by
     refine ⟨h.recon.kinds, ?_, ?_, h.recon.outIds⟩
     · intro hr
       obtain ⟨h1, h2⟩ := h.recon.rc hr
@@ -83,7 +138,27 @@ theorem sim_update_top {w : Walker Node} {a : TW Node} (h : Sim H ps w a) (top :
       simp only [List.map_cons, List.sum_cons] at this ⊢
       have e : clOf top' = clOf top := by unfold clOf; rw [hctr.2.2]
       rw [e]; exact this
-  refine ⟨h.wf, h.pos, ?_, ?_, ?_, ?_, ?_, ?_, hrecon, h.cpr, h.outs, h.nofix, ?_⟩
+  refine ⟨h.wf, h.pos, ?_, ?_, ?_, ?_, ?_, ?_, hrecon, h.cpr, h.outs, h.nofix, ?_, ?_, ?_⟩
+  rotate_right
+  · refine ⟨h.named.1, ?_⟩
+    intro q hq hne
+    have hq' : q ∈ wl' := hq
+    rcases hwl q hq' hne with hold | ⟨h1, h2⟩
+    · rcases h.named.2 q hold hne with ⟨sp, hsp, h1, h2⟩ | h'
+      · rw [hst] at hsp
+        rcases List.mem_cons.mp hsp with e | hsp'
+        · left
+          refine ⟨top', List.mem_cons_self .., by rw [hid, ← e]; exact h1, ?_⟩
+          exact hdm _ (specIndex_lt q hne) (by rw [← e]; exact h2)
+        · exact Or.inl ⟨sp, List.mem_cons_of_mem _ hsp', h1, h2⟩
+      · exact Or.inr h'
+    · exact Or.inl ⟨top', List.mem_cons_self .., h1.symm, h2⟩
+  rotate_right
+  · intro sp hsp
+    rcases List.mem_cons.mp hsp with e | hsp'
+    · rw [e]
+      exact (h.acct top (by rw [hst]; simp)).of_fields hid hctr.1 hctr.2.1 hctr.2.2
+    · exact h.acct sp (by rw [hst]; exact List.mem_cons_of_mem _ hsp')
   · show w.root = st' []
     rw [hroot]; exact h.root
   · constructor
@@ -170,7 +245,7 @@ theorem sim_write_top {w : Walker Node} {a : TW Node} (h : Sim H ps w a) (top : 
     (hd' : ∀ i, i < 126 → (top.diff.changed i = true ∨ i = specIndex r) → d'.changed i = true) :
     Sim H ps { w with stack := { top with page := { top.page with nodes := top.page.nodes.set (specIndex r) n },
                                           diff := d' } :: rest }
-      { a with store := upd a.store r n } := by
+      { a with store := upd a.store r n, wl := a.wl ++ [r] } := by
   obtain ⟨hlen, hm⟩ := h.pages top (by rw [hst]; simp)
   have hidx : specIndex r < 126 := specIndex_lt r hr
   apply sim_update_top H ps h top rest hst
@@ -218,6 +293,14 @@ theorem sim_write_top {w : Walker Node} {a : TW Node} (h : Sim H ps w a) (top : 
     rw [upd_other _ _ _ _ this]
     exact hm2 q hq hql hqp
   · rw [upd_other _ _ _ _ (Ne.symm hr)]
+  · intro i hi hch
+    exact hd' i hi (Or.inl hch)
+  · intro q hq hne
+    rcases List.mem_append.mp hq with h1 | h1
+    · exact Or.inl h1
+    · rw [List.mem_singleton] at h1
+      subst h1
+      exact Or.inr ⟨hrp, hd' _ (specIndex_lt q hne) (Or.inr rfl)⟩
 
 /-- `set_node` -/
 theorem sim_setNode {w : Walker Node} {a : TW Node} (h : Sim H ps w a) (hd : 6 * k0 w.parentPage < a.pos.length)
